@@ -97,8 +97,16 @@ def run(prog, rep):
             raise AnalysisError(f'ABCPropertyGraph.{rname} vanished')
         fq = f'ABCPropertyGraph.{rname}'
         # the class test names the start class
-        labels_tested = [ast.unparse(n.test) for n in fn.body if isinstance(n, ast.If)]
-        if not any(f'CLASS_{start_cls}' in t for t in labels_tested):
+        fn = inline(prog, apg, fn, exclude=tuple(REMOVERS) + ('remove_cp_and_links',))
+        # the class test names the start class: a rejecting test on membership of the folded class label in the node's labels
+        tested = False
+        for n in walk_no_nested(fn):
+            if isinstance(n, ast.If) and any(isinstance(x, ast.Raise) for x in n.body):
+                t = canon(n.test)
+                if isinstance(t, ast.Compare) and len(t.ops) == 1 and isinstance(t.ops[0], (ast.NotIn, ast.NotEq)) and \
+                        schema.fold(t.left, apg) == start_cls:
+                    tested = True
+        if not tested:
             rep.violation('R2', loc(amod, fn), fq, 'start class not tested', f'{rname} must verify that the element is a {start_cls}')
         got = {}
         for n in walk_no_nested(fn):
